@@ -6,4 +6,4 @@ From SV Require Import Props.C03v10.
 
 Check (C03_via_C10_ingress_and_reply_dispatch_never_panic : forall ifc socks p,
   wf_routes ifc ->
-  exists res l, ing_process ifc socks p = Ok res /\ ing_ingress_emits ifc res = Ok l).
+  exists res l, ing_process ifc socks p = Ok res /\ ing_ingress_emits_p ifc p res = Ok l).
